@@ -87,7 +87,7 @@ pub fn gen_dp_query(r: &mut Rng, w: &DpWorld) -> DpQuery {
     let mut feats: Vec<&'static str> = vec![];
     let users = w.cat.table("users").unwrap();
     let city_public = users.cols[users.col("city").unwrap()].finite_values();
-    let shape = r.below(12);
+    let shape = r.below(14);
     let (from, num_cols, keys): (String, Vec<(&str, bool)>, Vec<(&str, bool)>) = match shape {
         0 | 1 | 2 => (
             "orders".into(),
@@ -127,6 +127,24 @@ pub fn gen_dp_query(r: &mut Rng, w: &DpWorld) -> DpQuery {
         9 => {
             feats.push("row_privacy");
             ("events".into(), vec![("x", false), ("y", true)], vec![("k", true)])
+        }
+        12 => {
+            // two protected tables joined on something else than the privacy unit: rows of
+            // different units match, the tracking has to add the unit equality itself
+            feats.push("join_nonkey");
+            (
+                "orders AS a JOIN orders AS b ON a.qty = b.qty".into(),
+                vec![("a.amount", true), ("b.amount", true), ("a.qty", false)],
+                vec![("a.status", true), ("b.status", true)],
+            )
+        }
+        13 => {
+            feats.push("join_nonkey");
+            (
+                "users AS u JOIN orders AS o ON u.tier = o.qty".into(),
+                vec![("o.amount", true), ("u.age", true), ("u.income", true)],
+                vec![("u.city", city_public), ("o.status", true)],
+            )
         }
         10 => {
             feats.push("derived");
@@ -197,7 +215,23 @@ pub fn gen_dp_query(r: &mut Rng, w: &DpWorld) -> DpQuery {
 /// Queries for privacy-unit-preserving rewriting (no final aggregation required)
 pub fn gen_pup_query(r: &mut Rng, _w: &DpWorld) -> DpQuery {
     let mut feats: Vec<&'static str> = vec![];
-    let sql = match r.below(17) {
+    let sql = match r.below(21) {
+        17 => {
+            feats.push("left_join_pup_pup_nonkey");
+            "SELECT a.id AS aid, b.id AS bid, b.amount AS bamount FROM orders AS a LEFT JOIN orders AS b ON a.qty = b.qty".to_string()
+        }
+        18 => {
+            feats.push("right_join_pup_pup_nonkey");
+            "SELECT u.id AS uid, o.id AS oid, u.age AS age FROM users AS u RIGHT JOIN orders AS o ON u.tier = o.qty".to_string()
+        }
+        19 => {
+            feats.push("full_join_pup_pup_nonkey");
+            "SELECT a.id AS aid, b.id AS bid FROM users AS a FULL JOIN users AS b ON a.tier = b.tier".to_string()
+        }
+        20 => {
+            feats.push("items_two_step_path");
+            "SELECT sku, price, order_id FROM items".to_string()
+        }
         14 => {
             feats.push("join_pup_pup_nonkey");
             "SELECT a.id AS aid, b.id AS bid, a.amount + b.amount AS s FROM orders AS a JOIN orders AS b ON a.qty = b.qty".to_string()
